@@ -43,7 +43,7 @@ var readOps = []string{"fetch-blob", "fetch-manifest", "fetchref-digest", "fetch
 var writeOps = []string{"push-manifest", "delete-blob", "delete-manifest", "mount", "tag"}
 var digestCorruptions = []string{"dcd-other", "dcd-malformed", "dcd-other-alg"}
 
-var contentCorruptions = []string{"dcd-other", "dcd-other-alg", "dcd-malformed", "cl-plus", "cl-minus", "body-trunc", "body-extend", "body-flip", "body-empty", "body-one", "ct-other", "ct-malformed",
+var contentCorruptions = []string{"dcd-other", "dcd-other-alg", "dcd-malformed", "cl-plus", "cl-minus", "body-trunc", "body-extend", "body-flip", "body-empty", "body-one", "ct-other", "ct-malformed", "ct-dropped", "ct-empty",
 	"status-404", "status-500", "status-201", "status-206", "status-403"}
 
 func isTagOp(op string) bool    { return strings.HasSuffix(op, "-tag") }
@@ -83,9 +83,12 @@ func classify(c *corrCase, prof regmodel.Profile) {
 		default:
 			c.class = mustFail
 		}
-	case "ct-other", "ct-malformed":
+	case "ct-other", "ct-malformed", "ct-dropped", "ct-empty":
 		if c.op == "fetch-manifest" {
 			c.class = mustFail
+		} else if (c.corr == "ct-dropped" || c.corr == "ct-empty") && c.kind == "manifest" {
+			// no media type at all: the client may fail, but a manifest described
+			// with a made-up type contradicts the registry (no exemption)
 		} else {
 			c.exemptMT = true // the content type of something resolved by reference has nothing to be compared with
 		}
@@ -425,6 +428,10 @@ func corrupt(c *corrCase, variant int, n *node, resp *regmodel.Response) {
 				break
 			}
 		}
+	case "ct-dropped":
+		resp.Header["Content-Type"] = []string{} // header not sent at all
+	case "ct-empty":
+		resp.Header.Set("Content-Type", "")
 	case "ct-malformed":
 		resp.Header.Set("Content-Type", []string{"application/;;", "/", "a/b; x", ";"}[variant%4])
 	case "status-404", "status-500", "status-201", "status-206", "status-403", "status-416":
